@@ -159,6 +159,16 @@ func c20ConstructorJob() *SeqJob {
 	return j
 }
 
+// zeroIdentitySum: the sum of element bit patterns for which 23 + 31*sum = 0 (mod 2^64).
+var zeroIdentitySum = func() uint64 {
+	// 31^-1 mod 2^64 by Newton iteration
+	inv := uint64(31)
+	for i := 0; i < 6; i++ {
+		inv *= 2 - 31*inv
+	}
+	return (^uint64(23) + 1) * inv
+}()
+
 type c20Spec struct {
 	name string
 	v    []float64
@@ -183,6 +193,11 @@ func c20Specs() []c20Spec {
 		{name: "D{bits(1.0)}", d: []time.Duration{b(1)}, dur: true},
 		{name: "D{bits(1),bits(4)}", d: []time.Duration{b(1), b(4)}, dur: true},
 		{name: "nil", nil_: true, dur: true},
+		// identity = 23 + 31*sum(bits) = 0 mod 2^64: collides with the identity of the empty set
+		{name: "V{zero-identity}", v: []float64{math.Float64frombits(zeroIdentitySum)}},
+		{name: "V{x,1 zero-identity}", v: []float64{math.Float64frombits(zeroIdentitySum - math.Float64bits(1.0)), 1}},
+		{name: "D{2s,x zero-identity}", d: []time.Duration{2 * time.Second, time.Duration(zeroIdentitySum) - 2*time.Second}, dur: true},
+		{name: "V{} empty", v: []float64{}},
 	}
 }
 
